@@ -187,6 +187,12 @@ func parseContracts(file string, pkgDir string) ([]*FuncSpec, error) {
 			cur = nb
 		case "nosafety":
 			cur.NoSafety = true
+		case "exitnonzero":
+			cur.ExitNonZero = true
+		case "driver":
+			cur.Driver = true
+		case "assumepre":
+			cur.AssumePre = true
 		case "prop":
 			cur.Props = append(cur.Props, fields[1:]...)
 		case "requires", "ensures":
